@@ -3,6 +3,7 @@ module verifharness
 go 1.25.0
 
 require (
+	github.com/gotd/log v0.1.0
 	github.com/gotd/td v0.0.0
 	go.uber.org/multierr v1.11.0
 	pgregory.net/rapid v1.3.0
@@ -34,7 +35,6 @@ require (
 	github.com/google/uuid v1.6.0 // indirect
 	github.com/gotd/getdoc v0.53.0 // indirect
 	github.com/gotd/ige v0.3.0 // indirect
-	github.com/gotd/log v0.1.0 // indirect
 	github.com/gotd/log/logzap v0.1.1 // indirect
 	github.com/gotd/neo v0.1.5 // indirect
 	github.com/gotd/tl v0.4.0 // indirect
